@@ -46,7 +46,13 @@ deriving Inhabited
 structure Sess where
   auth : Option (List Str) := none
   phase : Phase := .handshake
+  /-- the requests forwarded so far (the model's announcements), in order -/
   pending : List Req := []
+  /-- the responses of the origin so far -/
+  resps : List Resp := []
+  /-- number of deliveries `respond pending resps` has made so far -/
+  delivered : Nat := 0
+  /-- a malformed response arrived (ReadResponse failed: 502, the response forwarder returned) -/
   respStopped : Bool := false
 deriving Inhabited
 
@@ -93,9 +99,11 @@ def stepC16 (s : Sess) (line : String) : Sess × String :=
     | _, _, _, _, _ => (s, "bad-op")
   | ["badresp"] =>
     if s.respStopped then (s, "dead")
-    else match s.pending with
-      | [] => ({ s with respStopped := true }, "unsolicited")
-      | _ => ({ s with respStopped := true }, "502")
+    else
+      -- does the response forwarder still read? (it does unless the last delivery ended the connection or no request is left)
+      let probe : Resp := { status := 200, connClose := false, bodyEOF := false, header := [], announced := [], trailer := [], locHost := none }
+      if (respond s.pending (s.resps ++ [probe])).length > s.delivered then ({ s with respStopped := true }, "502")
+      else ({ s with respStopped := true }, "unsolicited")
   | ["resp", st, cc, eof, loc, hs, an, ts] =>
     let locHost : Option (Option Str) :=
       if loc == "n" then some none
@@ -104,14 +112,18 @@ def stepC16 (s : Sess) (line : String) : Sess × String :=
     match st.toNat?, locHost, parseFields hs, parseNames an, parseFields ts with
     | some st, some lh, some hs, some an, some ts =>
       if s.respStopped then (s, "dead")
-      else match s.pending with
-        | [] => ({ s with respStopped := true }, "unsolicited")
-        | q :: qs =>
-          let p : Resp := { status := st, connClose := bit cc, bodyEOF := bit eof, header := hs, announced := an, trailer := ts, locHost := lh }
-          let (p', close) := filterResp p q
-          let final := isFinal st
-          ({ s with respStopped := close, pending := if !close && final then qs else s.pending },
-           s!"deliver {b2s close} {b2s final} {showFields p'.header} {showFields p'.trailer}")
+      else
+        let p : Resp := { status := st, connClose := bit cc, bodyEOF := bit eof, header := hs, announced := an, trailer := ts, locHost := lh }
+        -- the model's serverForwardResponses on everything the origin has sent so far
+        let out := respond s.pending (s.resps ++ [p])
+        let s' := { s with resps := s.resps ++ [p] }
+        if out.length > s.delivered then
+          match out.getLast? with
+          | some (p', q) =>
+            ({ s' with delivered := out.length },
+             s!"deliver {b2s (filterResp p q).2} {b2s (isFinal st)} {showFields p'.header} {showFields p'.trailer}")
+          | none => (s', "dead")
+        else (s', "dead")
     | _, _, _, _, _ => (s, "bad-op")
   | _ => (s, "bad-op")
 
